@@ -808,10 +808,10 @@ static void* interrupter(void* p) {
     t_srv->interrupt();
     __atomic_fetch_add(&t_completed, 1, __ATOMIC_SEQ_CST);
     if (i + 1 < a->n && r.chance(1, 3)) { __atomic_fetch_add(&t_unacked, 1, __ATOMIC_RELAXED); continue; }   // fire the next one without waiting ("twice in a row")
-    long spins = 0;
+    int64_t w0 = ns::realMonotonicMs(); long nap = 20;
     while (__atomic_load_n(&t_returns, __ATOMIC_SEQ_CST) <= r0) {
-      su::sleepUs(20);
-      if (++spins > 3000000) harnessBug("threads: run() did not return within 60 s after interrupt() from thread %d (inconclusive: wall-clock bound)", a->id);
+      su::sleepUs(nap); if (nap < 1000) nap *= 2;
+      if (ns::realMonotonicMs() - w0 > 30000) harnessBug("threads: run() did not return within 30 s after interrupt() from thread %d (inconclusive: wall-clock bound)", a->id);
     }
   }
   if (__atomic_sub_fetch(&t_active, 1, __ATOMIC_SEQ_CST) == 0) {
